@@ -210,6 +210,19 @@ func (r *slowStatusReader) ReadStatusForObject(ctx context.Context, reader engin
 	return r.StatusReader.ReadStatusForObject(ctx, reader, obj)
 }
 
+// recheckFailName: the delayed re-read (StatusReader.ReadStatus) of the Pod with this
+// name fails with an ordinary error -- a custom StatusReader may; the built-in readers
+// only fail with the context error
+const recheckFailName = "g"
+
+func (r *slowStatusReader) ReadStatus(ctx context.Context, reader engine.ClusterReader, id object.ObjMetadata) (*event.ResourceStatus, error) {
+	if id.GroupKind.Kind == "Pod" && id.Name == recheckFailName {
+		atomic.AddInt64(r.act, 1)
+		return nil, fmt.Errorf("re-read of %s refused", id.Name)
+	}
+	return r.StatusReader.ReadStatus(ctx, reader, id)
+}
+
 func buildObject(o oid, variant int) *unstructured.Unstructured {
 	u := &unstructured.Unstructured{Object: map[string]interface{}{}}
 	u.SetGroupVersionKind(kinds[o.gk].gvk)
@@ -844,7 +857,7 @@ func runReporterScript(sc *rscript) (obs *robs) {
 			expectFail = true
 			select {
 			case <-closedCh:
-			case <-time.After(20 * time.Second):
+			case <-time.After(20*time.Second + status.ScheduleWindow):
 				gaveUp = true
 			}
 			continue
@@ -1507,6 +1520,10 @@ func unschedulableScripts(tier string) []*rscript {
 				&rscript{label: "unschedulable:generated-scheduled", root: root, watched: []oid{top},
 					steps: []rstep{{"add", pod, variantPodReady}, {"add", rs, 0}, {"add", dep, 0}, tick}},
 				// a pod that BECOMES unschedulable through an update (UpdateFunc schedules the re-check)
+				// the re-check itself fails (ordinary error from the StatusReader): fatal -- one
+				// error event and the stop, about ScheduleWindow after the pod was seen
+				&rscript{label: "unschedulable:recheck-fails", root: root, watched: []oid{{kPod, 1, 7}, {3, 1, 1}},
+					steps: []rstep{{"add", oid{3, 1, 1}, 0}, {"add", oid{kPod, 1, 7}, variantUnsched}, {"fail", oid{}, 0}}},
 				&rscript{label: "unschedulable:by-update", root: root, watched: []oid{pod},
 					steps: []rstep{{"add", pod, variantPodReady}, {"update", pod, variantUnsched}, tick},
 					late:  map[oid][]string{pod: {"SFailed"}}},
